@@ -512,9 +512,16 @@ def run_worker(module: str, func: str, payload, timeout=120, env_extra=None):
         f"res = getattr(m, '{func}')(payload)\n"
         "sys.stdout.write('\\n@@RESULT@@' + json.dumps(res, default=str))\n"
     )
+    def _limit():
+        # a runaway case (exponential normal forms, an unbounded query) must not take the machine down
+        import resource
+        gb = int(os.environ.get("VERIF_WORKER_MEM_GB", "8"))
+        resource.setrlimit(resource.RLIMIT_AS, (gb << 30, gb << 30))
+
     try:
         p = subprocess.run([sys.executable, "-u", "-c", code], input=json.dumps(payload), text=True,
-                           stdout=subprocess.PIPE, stderr=subprocess.PIPE, timeout=timeout, env=env)
+                           stdout=subprocess.PIPE, stderr=subprocess.PIPE, timeout=timeout, env=env,
+                           preexec_fn=_limit)
     except subprocess.TimeoutExpired:
         return "hang", None
     if "@@RESULT@@" not in p.stdout:
